@@ -187,6 +187,16 @@ Fixpoint dec_i16s (n : nat) (buf : list N) : option (list Z * list N) :=
       end
   end.
 
+(* immKind (opcodes.go iota): 0 immByte, 1 immInt8, 2 immLabel, 3 immInt, 4 immBytes, 5 immInts,
+   6 immBytess, 7 immLabels, 8 immVarintLabel; immByte and immInt8 are read the same way *)
+Inductive ikind : Type :=
+| KByte | KLabel | KInt | KBytes | KInts | KBytess | KLabels | KVLabel | KBad.
+Definition kind_of (k : N) : ikind :=
+  if k =? 0 then KByte else if k =? 1 then KByte else if k =? 2 then KLabel
+  else if k =? 3 then KInt else if k =? 4 then KBytes else if k =? 5 then KInts
+  else if k =? 6 then KBytess else if k =? 7 then KLabels else if k =? 8 then KVLabel
+  else KBad.
+
 Section Codec.
   (* opsByOpcode[v][opcode] and its SubOps ([] = nil) *)
   Variable tbl : N -> N -> opspec * list opspec.
@@ -202,33 +212,33 @@ Section Codec.
   (* one immediate as disassemble() reads it; plen = len(program) *)
   Definition dec_imm (strict : bool) (plen : N) (im : immediate) (buf : list N)
     : option (immv * list N) :=
-    match im_kind im with
-    | 0 | 1 =>
+    match kind_of (im_kind im) with
+    | KByte =>
         match buf with
         | [] => None
         | b :: r => if field_named (im_group im) b then Some (VByte b, r) else None
         end
-    | 2 =>
+    | KLabel =>
         match buf with
         | b0 :: b1 :: r => Some (VLabel (dec_i16 b0 b1), r)
         | _ => None
         end
-    | 8 =>
+    | KVLabel =>
         match get_varint strict buf with
         | None => None
         | Some (z, r) => Some (VVLabel z, r)
         end
-    | 3 =>
+    | KInt =>
         match get_uvarint strict buf with
         | None => None
         | Some (x, r) => Some (VInt x, r)
         end
-    | 4 =>
+    | KBytes =>
         match dec_bytes strict buf with
         | None => None
         | Some (bs, r) => Some (VBytes bs, r)
         end
-    | 5 =>
+    | KInts =>
         (* parseIntImmArgs *)
         match get_uvarint strict buf with
         | None => None
@@ -239,7 +249,7 @@ Section Codec.
                  | Some (l, r') => Some (VInts l, r')
                  end
         end
-    | 6 =>
+    | KBytess =>
         (* parseByteImmArgs *)
         match get_uvarint strict buf with
         | None => None
@@ -250,7 +260,7 @@ Section Codec.
                  | Some (l, r') => Some (VBytess l, r')
                  end
         end
-    | 7 =>
+    | KLabels =>
         (* parseLabels *)
         match buf with
         | [] => None
@@ -260,7 +270,7 @@ Section Codec.
             | Some (l, r') => Some (VLabels l, r')
             end
         end
-    | _ => None
+    | KBad => None
     end.
 
   Fixpoint dec_imms (strict : bool) (plen : N) (ims : list immediate) (buf : list N)
@@ -367,15 +377,15 @@ Section Codec.
   Definition spec_of (v : N) (i : instr) : option opspec := spec_at v (i_op i) (i_sub i).
 
   Definition imm_wf (im : immediate) (x : immv) : bool :=
-    match im_kind im, x with
-    | 0, VByte b | 1, VByte b => (b <? 256) && field_named (im_group im) b
-    | 2, VLabel off => i16_ok off
-    | 8, VVLabel off => i64_ok off
-    | 3, VInt n => u64_ok n
-    | 4, VBytes bs => u64_ok (nlen bs)
-    | 5, VInts l => u64_ok (nlen l) && forallb u64_ok l
-    | 6, VBytess l => u64_ok (nlen l) && forallb (fun bs => u64_ok (nlen bs)) l
-    | 7, VLabels l => (nlen l <? 256) && forallb i16_ok l
+    match kind_of (im_kind im), x with
+    | KByte, VByte b => (b <? 256) && field_named (im_group im) b
+    | KLabel, VLabel off => i16_ok off
+    | KVLabel, VVLabel off => i64_ok off
+    | KInt, VInt n => u64_ok n
+    | KBytes, VBytes bs => u64_ok (nlen bs)
+    | KInts, VInts l => u64_ok (nlen l) && forallb u64_ok l
+    | KBytess, VBytess l => u64_ok (nlen l) && forallb (fun bs => u64_ok (nlen bs)) l
+    | KLabels, VLabels l => (nlen l <? 256) && forallb i16_ok l
     | _, _ => false
     end.
 
